@@ -110,7 +110,10 @@ def value(rng):
         return lit(v), v
     if k == 2:
         s = rng.choice(['hello', 'a b', '', 'x{y}', '#not a comment', '100%',
-                        'tab\there', "it's", '[b]', '{}', 'ünï'])
+                        'tab\there', "it's", '[b]', '{}', 'ünï',
+                        # a backslash followed by n inside a *value* is just
+                        # those two characters
+                        'a\\nb', 'c:\\new', '\\n'])
         return '"{}"'.format(s), s
     if k == 3:
         n = rng.choice(['yes', 'no'])
@@ -161,6 +164,9 @@ def named_pool():
     return pool
 
 
+REPEATED = [False]
+
+
 def printf_stmt(rng):
     """returns (script text, formatted text)"""
     style = rng.choice(['anon', 'anon', 'numbered', 'named-only'])
@@ -186,9 +192,15 @@ def printf_stmt(rng):
             t, v = value(rng)
             args_txt.append(t)
             args_val.append(v)
-        # every positional value is referenced exactly once, in any order
+        # every positional value is referenced exactly once, in any order;
+        # or (REPEATED) field numbers recur: the compiler takes one value per
+        # positional field, str.format picks among them by number
         order = list(range(k))
         rng.shuffle(order)
+        if rng.random() < 0.3:
+            order = [rng.randrange(k) for _ in range(k)]
+            if len(set(order)) < k:
+                REPEATED[0] = True
         for idx in order:
             parts.append(rng.choice(['', ' ', '/']))
             parts.append('{' + str(idx) + spec_for(rng, args_val[idx]) + '}')
@@ -288,6 +300,10 @@ def check_case(ctx, script, segs, final_nl, replay):
     finally:
         sys.stdout = saved
     if not r.accepted:
+        if replay.get('repeated_field_numbers'):
+            # how many values such a format takes is the compiler's choice
+            ctx.count('undecidable:repeated-field-numbers-rejected')
+            return
         ctx.violation('rejected', '{} | {}'.format(r.errors.strip(), script),
                       replay)
         return
@@ -337,10 +353,14 @@ def run_shard(ctx):
     n = N[ctx.tier]
     for i in range(ctx.shard, n, ctx.nshards):
         rng = ctx.rng('c19', i)
+        REPEATED[0] = False
         script, segs, final_nl, outputs = build(rng)
         ctx.case('S:' + script, nontrivial=outputs >= 2)
+        if REPEATED[0]:
+            ctx.count('scripts_with_repeated_field_numbers')
         check_case(ctx, script, segs, final_nl,
-                   {'script': script, 'segments': segs, 'final_nl': final_nl})
+                   {'script': script, 'segments': segs, 'final_nl': final_nl,
+                    'repeated_field_numbers': REPEATED[0]})
         if i % 1000 < ctx.nshards:
             ctx.sample({'script': script, 'expected_stdout':
                         ''.join(segs).replace('\x00', '( )')})
